@@ -34,7 +34,8 @@ GenOk(e) == /\ InClass(e.toks)
 
 ItemIntended(e, it) == it.outcome = "ok" /\ Accepts(WantF(e.toks, OpOf(e, it)), it.out)
 ItemKnown(e, it) == LET R == Impl(e.toks, OpOf(e, it), Enabled)
-                    IN R.outcome = it.outcome /\ (R.outcome = "ok" => it.out = ImplRender(R.f))
+                    IN /\ R.outcome = it.outcome /\ (R.outcome = "ok" => it.out = ImplRender(R.f))
+                       /\ Hits(e.toks, OpOf(e, it), Enabled) # {}         \* explained by at least one open finding
 ItemOk(e, it) == ItemIntended(e, it) \/ ItemKnown(e, it)
 
 Judge(e) ==
